@@ -42,6 +42,7 @@ from pbt.core import Part, Outcome, Violation
 from pbt import c02_ref_itp as ref
 
 import vermouth
+import vermouth.gmx.topology
 from vermouth.forcefield import ForceField
 from vermouth.file_writer import DeferredFileWriter
 from vermouth.gmx.gro import write_gro
@@ -639,8 +640,21 @@ def produce(case, insts, mode):
         if mode == 'cli-order':
             SortMoleculeAtoms().run_system(system)
         names = [mol.meta.get('moltype') for mol in system.molecules]
-        write_gmx_topology(system, os.path.join(tmpdir, case['top_name']), itp_paths=[], C6C12=False,
-                           defines=tuple(case['defines']))
+        opened = []
+        topology_module = vermouth.gmx.topology
+        real_open = getattr(topology_module, 'deferred_open', None)
+        if real_open is not None:
+            def counting_open(filename, mode='r', *args, **kwargs):
+                if 'r' not in mode:
+                    opened.append(os.path.basename(str(filename)))
+                return real_open(filename, mode, *args, **kwargs)
+            topology_module.deferred_open = counting_open
+        try:
+            write_gmx_topology(system, os.path.join(tmpdir, case['top_name']), itp_paths=[], C6C12=False,
+                               defines=tuple(case['defines']))
+        finally:
+            if real_open is not None:
+                topology_module.deferred_open = real_open
         write_pdb(system, os.path.join(tmpdir, 'out.pdb'), omit_charges=True, defer_writing=case['pdb_deferred'])
         if mode == 'gro':
             write_gro(system, os.path.join(tmpdir, 'out.gro'), box=(20.0, 20.0, 20.0))
@@ -654,7 +668,7 @@ def produce(case, insts, mode):
             out = io.StringIO()
             write_molecule_itp(mol, out)
             texts.append(out.getvalue())
-        return names, files, texts
+        return names, files, texts, opened
     finally:
         writer.close()
         os.chdir(cwd)
@@ -880,9 +894,12 @@ def _classes(case, facts, names, texts):
 
 def _run(case, mode):
     facts = case_facts(case)
-    names, files, texts = produce(case, facts['insts'], mode)
+    names, files, texts, opened = produce(case, facts['insts'], mode)
     check_names(case, facts, names, texts)
     expansion, multiplicity = check_top(case, names, files)
+    twice = sorted(name for name in set(opened) if opened.count(name) > 1)
+    if twice:
+        raise Violation('file-written-twice', 'the topology writer opened %r for writing more than once (all: %r)' % (twice, opened))
     atoms_of = check_itps(names, files, texts)
     check_pdb(facts, files, expansion, atoms_of, sorted_first=(mode == 'cli-order'))
     classes, nontrivial = _classes(case, facts, names, texts)
